@@ -656,7 +656,8 @@ func (e *Env) dispatch(t []string) (string, []string) {
 		if e.appMode {
 			return e.unsupportedInApp()
 		}
-		e.pendHooks[fmt.Sprintf("%s/%d", name, idx)] = true
+		// last one wins: only ONE failing listener can be armed (as in the model)
+		e.pendHooks = map[string]bool{fmt.Sprintf("%s/%d", name, idx): true}
 		return "res ok", nil
 
 	case "fault":
